@@ -18,6 +18,7 @@ import (
 	"strconv"
 	"strings"
 	"sync"
+	"sync/atomic"
 	"time"
 
 	"github.com/go-openapi/runtime"
@@ -33,8 +34,8 @@ func init() {
 		Level: "exploration",
 		Race:  true,
 		Rule: "(a) sequential: a fresh client.Runtime per case with a tagged consumer registry (subset of 9 lower-case types, with/without '*/*', default media type registered or not) and a scripted response " +
-			"(Content-Type registered / unregistered / absent / empty / malformed / grey, spelled plain, with parameters, OWS, mixed case; 17 status codes; custom reason phrase; header multiset; body) served by an in-memory RoundTripper or a loopback server; " +
-			"the ClientResponseReader records the consumer it was handed (by tag), Code/Message/GetHeader/GetHeaders/Body, the Content-Type and Content-Length headers it is shown, and looks every scripted header up under its canonical, lower-case and upper-case name; tagged RoundTrippers and context values tell which client and which context carried the call (operation-level vs Runtime-level; live, cancelled, nil, deadline already expired, deadline hours away; request timeout default / 0 / hours); a share of cases runs with Runtime.Debug on (null logger). " +
+			"(Content-Type registered / unregistered / absent / empty / malformed / grey, spelled plain, with parameters, OWS, mixed case; 17 status codes; custom reason phrase; header multiset; body of 0 bytes..1 MiB) served by an in-memory RoundTripper (whose body, like net/http's, fails once the request context is done or the body was closed) or a loopback server (1 in 4: the head is flushed first and the body is written once the reader has been entered, a logical event); " +
+			"the ClientResponseReader records the consumer it was handed (by tag), Code/Message/GetHeader/GetHeaders/Body, the Content-Type and Content-Length headers it is shown, and looks every scripted header up under its canonical, lower-case and upper-case name; tagged RoundTrippers and context values tell which client and which context carried the call (operation-level vs Runtime-level; live, cancelled, nil, deadline already expired, deadline hours away; request timeout default / 0 / hours); a share of cases runs with Runtime.Debug on (null logger). Redirect policy: a 302 + Location answer with the operation client stopping/following, the Runtime made with New or NewWithClient (policy stopping/following, consultations counted), and the mirror cases without an operation client. " +
 			"(b) concurrent: N=4..64 goroutines released together on a FRESH Runtime (1-2 calls each, unique token in request header+query and in response header+body), GOMAXPROCS in {1,4,16}, " +
 			"verifhook scheduler (per-goroutine PRNG: nothing / Gosched x k / sleep 10-300us at cl.submit.built, clientReady, beforeDo, afterDo; lock-free, so that it adds no happens-before edges), race detector on. " +
 			"non-trivial: sequential = (registry shape, header kind+spelling+registration, client/context configuration) tuples; concurrent = runs whose first calls overlapped between cl.submit.built and cl.submit.clientReady (from hook timestamps), distinct by the hash of the merged hook trace",
@@ -42,7 +43,7 @@ func init() {
 			"registry keys and Runtime.DefaultMediaType are lower case without parameters",
 			"a malformed Content-Type (type/subtype part not a token pair) has no media type: the call may fail or use the catch-all consumer, never another consumer; its error must mention the value or the words 'content type'",
 			"grey-zone values (empty value, lone token without '/', irregular parameter section) may be read as 'media type = part before the first ;' or rejected; only 'never a different consumer' is judged there",
-			"status 1xx and 3xx-with-Location are not generated (net/http handles them before the Runtime sees the response); over loopback the reason phrase is the standard one and 204/304 carry no body",
+			"status 1xx is not generated, and 3xx-with-Location only in the redirect-policy sub-workload, where the governing client's CheckRedirect decides what the reader sees (net/http handles them before the Runtime sees the response); over loopback the reason phrase is the standard one and 204/304 carry no body",
 			"a call whose governing context (operation's, else the Runtime's) is already cancelled or past its deadline must fail without the reader running; the other context being cancelled or expired must not matter (deadlines used are either in the past or hours away: no wall-clock judgement)",
 			"header names are case-insensitive (RFC 7230): GetHeader/GetHeaders must find a header under any letter case of its name",
 			"over loopback a Content-Length header, when the reader is shown one, must state the length of the body sent; in memory none is scripted, so none may appear",
@@ -70,6 +71,8 @@ type Call struct {
 	OpCtx    string      `json:"op_ctx,omitempty"`    // "" | live | cancelled | expired (deadline in the past) | far (deadline hours away)
 	Timeout  string      `json:"timeout,omitempty"`   // request timeout: "" (default 30s) | zero (SetTimeout(0)) | hours
 	Rounds   int         `json:"rounds,omitempty"`    // concurrent: calls made by this goroutine (default 1)
+	Fill     int         `json:"fill,omitempty"`      // deterministic filler of this many bytes follows Body in the response
+	Flush    bool        `json:"flush,omitempty"`     // loopback only: the head is flushed first, the body is written once the reader has been entered
 }
 
 // Conc configures a concurrent run (nil: the single call is made sequentially).
@@ -385,9 +388,59 @@ type exec struct {
 // bodyOf is the body scripted for the call carrying the token.
 func bodyOf(c *Case, call *Call, token string) string {
 	if c.TokenBody {
-		return token + "|" + string(call.Body)
+		return token + "|" + string(call.Body) + filler(call.Fill)
 	}
-	return string(call.Body)
+	return string(call.Body) + filler(call.Fill)
+}
+
+var (
+	fillMu    sync.Mutex
+	fillCache = map[int]string{}
+)
+
+// filler is a deterministic printable text of n bytes (no period that divides a power of two).
+func filler(n int) string {
+	if n <= 0 {
+		return ""
+	}
+	fillMu.Lock()
+	defer fillMu.Unlock()
+	if f, ok := fillCache[n]; ok {
+		return f
+	}
+	const alpha = "abcdefghijklmnopqrstuvwxyzABCDEFGHIJKLMNOPQRSTUVWXYZ0123456789-_.,;"
+	b := make([]byte, n)
+	for i := range b {
+		b[i] = alpha[(i+i/67+i/4099)%len(alpha)]
+	}
+	fillCache[n] = string(b)
+	return fillCache[n]
+}
+
+// memBody is the body of an in-memory response. Like the body net/http hands out, it stops delivering once the request's
+// context is done (Read fails with the context's error) and once it has been closed (Read fails): a response body is only
+// good while the exchange it belongs to is still open.
+type memBody struct {
+	ctx    context.Context
+	r      *bytes.Reader
+	closed int32
+}
+
+var errBodyClosed = errors.New("http: read on closed response body")
+
+func (b *memBody) Read(p []byte) (int, error) {
+	if atomic.LoadInt32(&b.closed) != 0 {
+		return 0, errBodyClosed
+	}
+	if err := b.ctx.Err(); err != nil {
+		return 0, err
+	}
+	return b.r.Read(p)
+}
+
+func (b *memBody) Close() error {
+	atomic.StoreInt32(&b.closed, 1)
+	return nil
 }
 
 type nullLogger struct{}
@@ -454,7 +507,7 @@ func (t *memRT) RoundTrip(req *http.Request) (*http.Response, error) {
 		ProtoMajor:    1,
 		ProtoMinor:    1,
 		Header:        h,
-		Body:          io.NopCloser(bytes.NewReader(body)),
+		Body:          &memBody{ctx: req.Context(), r: bytes.NewReader(body)},
 		ContentLength: int64(len(body)),
 		Request:       req,
 	}, nil
@@ -483,7 +536,22 @@ var (
 type srvPlan struct {
 	call *Call
 	body string
+	// gate is closed when the caller's reader has been entered (or the call is over): a handler that flushed its head
+	// writes the body only then (a logical event; the timeout is a watchdog)
+	gate     chan struct{}
+	gateOnce sync.Once
 }
+
+func (p *srvPlan) open() { p.gateOnce.Do(func() { close(p.gate) }) }
+
+// openGate lets the loopback handler of the call write its body.
+func openGate(token string) {
+	if v, ok := srvPlans.Load(token); ok {
+		v.(*srvPlan).open()
+	}
+}
+
+const gateWatchdog = 20 * time.Second
 
 func server() *httptest.Server {
 	srvOnce.Do(func() {
@@ -506,6 +574,15 @@ func server() *httptest.Server {
 			w.Header()["X-Token"] = []string{tok}
 			w.WriteHeader(call.Status)
 			if call.Status != 204 && call.Status != 304 {
+				if call.Flush {
+					if fl, ok := w.(http.Flusher); ok {
+						fl.Flush() // the head leaves now, without the body
+						select {
+						case <-v.(*srvPlan).gate:
+						case <-time.After(gateWatchdog):
+						}
+					}
+				}
 				_, _ = w.Write([]byte(body))
 			}
 		}))
@@ -597,6 +674,9 @@ func (x *exec) operation(call *Call, s *slot) *runtime.ClientOperation {
 		}),
 		Reader: runtime.ClientResponseReaderFunc(func(resp runtime.ClientResponse, cons runtime.Consumer) (interface{}, error) {
 			s.readerRuns++
+			if x.c.TCP && call.Flush {
+				openGate(s.token)
+			}
 			switch t := cons.(type) {
 			case nil:
 				s.consumer = "<nil>"
@@ -644,6 +724,9 @@ func (x *exec) operation(call *Call, s *slot) *runtime.ClientOperation {
 func (x *exec) submit(rt *client.Runtime, call *Call, s *slot) {
 	op := x.operation(call, s)
 	pv, st := mon.Catch(func() { s.result, s.err = rt.Submit(op) })
+	if x.c.TCP && call.Flush {
+		openGate(s.token) // never leave a handler waiting
+	}
 	if pv != nil {
 		s.panicV = fmt.Sprintf("%v\n%s", pv, st)
 	}
@@ -672,7 +755,11 @@ func prepare(c *Case) *exec {
 			x.plans[tok] = &plan{call: &c.Calls[i], tcp: c.TCP}
 			x.slots[tok] = &slot{token: tok}
 			if c.TCP {
-				srvPlans.Store(tok, &srvPlan{call: &c.Calls[i], body: bodyOf(c, &c.Calls[i], tok)})
+				sp := &srvPlan{call: &c.Calls[i], body: bodyOf(c, &c.Calls[i], tok), gate: make(chan struct{})}
+				if c.Debug {
+					sp.open() // with Debug on the Runtime dumps (reads) the whole response before the reader is entered
+				}
+				srvPlans.Store(tok, sp)
 			}
 		}
 	}
@@ -868,7 +955,7 @@ func judgeCall(c *Case, call *Call, s *slot) []finding {
 		}
 	}
 	if string(s.body) != wantBody || s.bodyErr != "" {
-		add("body-altered", "reader read %q (err %q), sent %q", clip(string(s.body)), s.bodyErr, clip(wantBody))
+		add("body-altered", "reader read %d bytes %q (err %q), sent %d bytes %q", len(s.body), clip(string(s.body)), s.bodyErr, len(wantBody), clip(wantBody))
 	}
 	if s.hdrTok != s.token {
 		add("cross-talk/response-of-another-call", "call with token %q was handed the response carrying token %q", s.token, s.hdrTok)
@@ -937,6 +1024,12 @@ func runCase(m *mon.M, c *Case) {
 		fp := []string{"seq", registryShape(c), w.feature, strconv.FormatBool(call.OpClient), call.OpCtx, c.RtCtx, strconv.FormatBool(c.TCP)}
 		if call.Timeout != "" || c.Debug {
 			fp = append(fp, call.Timeout, strconv.FormatBool(c.Debug))
+		}
+		if call.Fill > 0 {
+			m.Class("seq:large-body")
+		}
+		if call.Flush {
+			m.Class("seq:head-flushed-first")
 		}
 		m.NT(strings.Join(fp, "|"))
 		m.Class("seq-contexts:op=" + orNone(call.OpCtx) + ",rt=" + c.RtCtx)
